@@ -6,7 +6,9 @@ import os
 HERE = os.path.dirname(os.path.dirname(os.path.abspath(__file__)))
 PY = "/venv/bin/python"
 BASE = ("Exploration: generated-input search (hypothesis, seeded by VERIF_SEED, sharded over 16 processes) plus complete "
-        "enumeration of the finite sub-domains named below, against an oracle that shares no code with the repository. "
+        "enumeration of the finite sub-domains named below, against an oracle that shares no code with the repository; "
+        "rejection-type clauses run a second time under `python -O`. Sensitivity was measured against 160 independently "
+        "written breaking changes (seeded/) and false-alarm resistance against 53 property-preserving rewrites (benign/). "
         "It does not establish absence of counter-examples outside what was explored. ")
 NOTE = ("Trusted base: CPython, hashlib/hmac (SHA-256/512, OpenSSL RIPEMD-160), unicodedata, hypothesis, and the reference "
         "models in vlib/ref (own secp256k1, Base58Check, Bech32 over GF(32), BIP32/39/85, strict script parser), each "
@@ -20,11 +22,15 @@ CHECKS = {
             "both printed strings, and observes the HMAC key/data layout directly.", "5/C01"),
     "C02": ("differential PBT: public vs private derivation vs independent CKDpub",
             "Normal paths of length 0..6 from three constructions of the public parent, compared after every step with the "
-            "implementation's private side and with own point addition; hardened indexes must be refused by ckd, "
-            "derive_path and generate_children; leading-zero-x children are searched for and exercised.", "5/C02"),
+            "implementation's private side and with own point addition (lists, tuples, iterators; the parent with the "
+            "negated key in the same process); hardened indexes must be refused by ckd, derive_path and generate_children "
+            "(also after the private twin derived them, at parent depth 255, and for bulk intervals straddling 2^31); "
+            "threads on a shared public node under a deterministic scheduler; leading-zero-x children searched for.",
+            "5/C02"),
     "C03": ("differential PBT over Unicode text vs explicit PBKDF2/HMAC model",
-            "Arbitrary and NFKD-sensitive text (measured class histogram), seeds of 0..128 bytes incl. leading zeros, all "
-            "constructors incl. new_wallet, both networks.", "5/C03"),
+            "Arbitrary and NFKD-sensitive text (measured class histogram; case variants of real sentences; boundary-shifted "
+            "mnemonic/passphrase pairs), seeds of 0..128 bytes incl. leading zeros and hex-looking ones, all constructors "
+            "incl. new_wallet and the four CLI constructors, both networks.", "5/C03"),
     "C04": ("round-trip PBT through a frozen official word list + exhaustive length sweep",
             "All five sizes with patterned/uniform entropy decoded word by word; every other byte length 0..64 enumerated; "
             "whitespace/odd-length hex judged by result; the random sentence generators driven through a scripted random "
@@ -32,11 +38,13 @@ CHECKS = {
             "refused); embedded list pinned by two independent digests.", "5/C04"),
     "C05": ("differential PBT vs independent address decoders; exhaustive hash lengths",
             "Five address kinds x two networks x node forms x key classes (incl. a frozen table of leading-zero-x keys), "
-            "request order generated on one key object; script templates byte for byte; RIPEMD-160/HASH160 for every "
-            "length 0..1024 (0..4096 thorough).", "5/C05"),
+            "request order generated on one key object; keys whose HASH160 starts with 0x00; public nodes holding an "
+            "uncompressed key; script templates byte for byte (two scripts alive at once); RIPEMD-160/HASH160 for every "
+            "length 0..1024 (0..4096 thorough), with reused mutable buffers and from several free-running threads.", "5/C05"),
     "C06": ("model-based PBT of paper-wallet records vs independent BIP32/44/49/84 derivation",
             "Sources (mnemonic+passphrase, seed, xprv), networks, accounts incl. 2^31-1 side, intervals incl. empty/single, "
-            "repeated generate() on one wallet; every field of every row decoded independently; JSON and Wasabi export.",
+            "repeated generate() on one wallet (first record re-read afterwards); master imported under all six private "
+            "versions; every field of every row decoded independently; JSON, file exports into one path, Wasabi export.",
             "5/C06"),
     "C07": ("round-trip PBT over all 12 versions (exhaustive per case) and 3 input forms",
             "Generated valid payloads serialised by the reference under every version; parse from str/bytes/stream, field "
@@ -44,8 +52,9 @@ CHECKS = {
             "enumerated unknown versions.", "5/C07"),
     "C08": ("stateful history PBT with the OS randomness source observed from outside",
             "Histories of reseed(process-wide PRNG)/new-wallet calls over every API and length; os.urandom/random._urandom "
-            "wrapped to count bytes requested; reseed pairs must differ; per-bit variation incl. the top bit over >= 96 "
-            "samples per length (false-alarm probability < 1e-25).", "5/C08"),
+            "probed (installed before the library is imported) to count bytes requested; reseed pairs must differ; per-bit "
+            "variation incl. the top bit over >= 96 samples per api x length (false-alarm probability < 1e-24); fault "
+            "injection: the OS source raising must not yield a wallet.", "5/C08"),
     "C09": ("round-trip + constructed-rejection PBT vs own secp256k1",
             "Scalars incl. low-byte-01 class through every constructor, four WIF flavours, both SEC forms; bad scalars at "
             "every construction site; every length 0..70; off-curve encodings decided by own Legendre symbol; after each "
@@ -70,14 +79,17 @@ CHECKS = {
     "C14": ("differential PBT full wallet vs watch-only wallet + object-graph scan",
             "Export nodes at depth 0..5 under all public versions of the network, normal sub-paths, five address kinds; "
             "every private request must raise or be None; the watch-only object graph is scanned for private scalars; "
-            "full-wallet activity precedes the watch-only requests in the same process.", "5/C14"),
+            "full-wallet activity precedes the watch-only requests in the same process; export depths up to 251; bulk "
+            "children straddling 2^31; full vs watch-only agreement on invalid children under a scripted PRF.", "5/C14"),
     "C15": ("PBT with independent secret-set oracle over every leaf of the filtered output",
             "Secret set computed by the reference (not from the output's layout); every key and string leaf at every depth "
             "classified and substring-checked; public identity both ways; empty intervals; several wallets filtered in "
             "one process; CLI --paranoia route.", "5/C15"),
     "C16": ("PBT with independent network classifier over every emitted string",
             "Both networks x seeds x accounts x intervals x node paths incl. coin-type-1' paths on mainnet; re-import under "
-            "all 12 versions; every string classified main/test/untagged by independent decoders.", "5/C16"),
+            "all 12 versions; every string classified main/test/untagged by independent decoders; an other-network decoy "
+            "wallet acts first; node-flag/wallet-flag mismatch; a mainnet and a testnet wallet generating concurrently "
+            "under the deterministic scheduler.", "5/C16"),
     "C17": ("round-trip PBT + single-fault grammar for malformed paths",
             "Lists of length 0..5 over [0,2^32), both markers and roots, lookups on two wallets vs independent derivation, "
             "malformed strings (root/junk/range/empty), 6..12-level paths (one listed known finding); an independent path "
@@ -91,8 +103,8 @@ CHECKS = {
             "edge and all truncations.", "5/C19"),
     "C20": ("PBT over structured argv intents run through main() in process, vs fresh API call",
             "Five sub-commands, option order/spelling, file path states, one fault at a validator bound or none; outcome "
-            "oracle on status/stdout/files; 5% re-run as real subprocess in the thorough tier (one listed known finding).",
-            "5/C20"),
+            "oracle on status/stdout/files; the complete fault x file-state grid; sentinel siblings of the requested file; "
+            "subprocess re-runs through the real entry point (one listed known finding).", "5/C20"),
 }
 NOT_YET = {}
 
